@@ -4,6 +4,7 @@ package session
 
 import (
 	"bytes"
+	"crypto/sha1"
 	"encoding/json"
 	"fmt"
 	"github.com/emitter-io/emitter/internal/security/hash"
@@ -131,6 +132,16 @@ func (w *world) words(ch string) []string {
 	return out
 }
 
+// abbrev stands for a long payload in events: its head, length and digest (the same function wherever a payload is
+// logged, so equal payloads stay equal and different ones different).
+func abbrev(p string) string {
+	if len(p) <= 80 {
+		return p
+	}
+	h := sha1.Sum([]byte(p))
+	return fmt.Sprintf("%s..#%d#%x", p[:32], len(p), h[:8])
+}
+
 func words(ch string) []string {
 	if i := strings.IndexByte(ch, '?'); i >= 0 {
 		ch = ch[:i]
@@ -176,7 +187,7 @@ type world struct {
 	f       *fabric
 	nb      int
 	broken  map[string]bool // connections the broker closed although no request ended them
-	k       int // depth inflation: every channel word is repeated k times (0 or 1 = as is); semantics-preserving for literals and '+'
+	k       int             // depth inflation: every channel word is repeated k times (0 or 1 = as is); semantics-preserving for literals and '+'
 	keys    map[string]string
 	clients map[string]*bk.Client
 	names   []string
@@ -198,6 +209,7 @@ func (w *world) key(name string) string {
 
 // toModel converts an abstract packet into the record shape the trace specification compares.
 func (w *world) toModel(p bk.Pkt) map[string]any {
+	p.P = abbrev(p.P)
 	switch p.T {
 	case "connack", "suback", "err":
 		return map[string]any{"t": p.T, "code": p.Code}
@@ -208,7 +220,7 @@ func (w *world) toModel(p bk.Pkt) map[string]any {
 	case "hist":
 		msgs := [][]any{}
 		for _, x := range p.Msgs {
-			msgs = append(msgs, []any{w.words(x[0]), x[1]})
+			msgs = append(msgs, []any{w.words(x[0]), abbrev(x[1])})
 		}
 		return map[string]any{"t": "hist", "msgs": msgs}
 	case "resp":
@@ -297,7 +309,7 @@ func (w *world) collect(requester, isSub string) (map[string]*outRec, error) {
 				continue
 			}
 			if p.T == "pub" && n == isSub {
-				replay = append(replay, []any{w.words(p.Ch), p.P})
+				replay = append(replay, []any{w.words(p.Ch), abbrev(p.P)})
 				continue
 			}
 			flush()
@@ -673,6 +685,15 @@ func replayWith(nb int, surveyed, standalone bool, mode string, licVer int, stor
 			case "pub-first":
 				x.Send(&mqtt.Publish{Header: mqtt.Header{QOS: 1}, MessageID: 1, Topic: []byte(w.key("kAll") + "/stranger/"), Payload: []byte("x")})
 				x.Barrier(stepTimeout)
+			case "will-deep-24", "will-deep-40", "will-long":
+				// a session whose last will goes to a channel of very many levels / a very long level (the will is
+				// authorized and published when the connection is torn down)
+				topic := w.key("kAll") + "/stranger/" + strings.Repeat("d/", map[string]int{"will-deep-24": 23, "will-deep-40": 39, "will-long": 1}[a.Cls])
+				if a.Cls == "will-long" {
+					topic = w.key("kAll") + "/stranger/" + strings.Repeat("L", 30000) + "/"
+				}
+				x.Send(&mqtt.Connect{ClientID: []byte("stranger"), WillFlag: true, WillTopic: []byte(topic), WillMessage: []byte("last words")})
+				x.Barrier(stepTimeout)
 			}
 			x.C.Close()
 			if !x.WaitServerClosed(stepTimeout) {
@@ -764,7 +785,7 @@ func (w *world) storedMessages() (out map[string][][]any) {
 					continue
 				}
 				seen[string(m.ID)] = true
-				list = append(list, []any{w.words(string(m.Channel)), string(m.Payload), m.TTL})
+				list = append(list, []any{w.words(string(m.Channel)), abbrev(string(m.Payload)), m.TTL})
 			}
 		}
 		sort.Slice(list, func(i, j int) bool { return fmt.Sprint(list[i]) < fmt.Sprint(list[j]) })
@@ -1051,6 +1072,9 @@ func RunFamily(c *core.Ctx, p Plan) {
 			n, rounds = 6*p.Hammer, 250
 		}
 		HammerStage(c, p.What, n, rounds, 1)
+	}
+	if p.Fam == "retain" {
+		RetainStage(c, p.What)
 	}
 	if p.Fam == "retain" && !c.Quick() {
 		// history across brokers: two brokers whose stores answer each other's surveys (emitter matcher; with the mqtt
